@@ -2,10 +2,12 @@
 
 // Hand-over accounting (tie of Model/Handover.lean): the driver is built against instrumented copies of
 // connection_unix.go / eventloop_unix.go that log, in one global order,
-//   enter newStreamConn <fd> <loop>      the acceptor (or an enrolment) created a connection for loop <loop>
-//   enter register0 <fd> <loop>          loop <loop> registered it (OnOpen follows)
-//   enter close <fd> <loop>              el.close was entered for it
-//   enter closeConns <loop>              loop <loop> left Polling
+//
+//	enter newStreamConn <fd> <loop>      the acceptor (or an enrolment) created a connection for loop <loop>
+//	enter register0 <fd> <loop>          loop <loop> registered it (OnOpen follows)
+//	enter close <fd> <loop>              el.close was entered for it
+//	enter closeConns <loop>              loop <loop> left Polling
+//
 // The life's reply carries the canonical event list and the number of connected sockets that stayed open.
 package main
 
